@@ -18,7 +18,10 @@ Inductive ty :=
 | TDict (v: ty)                 (* Dict[str, v] *)
 | TTuple (ts: list ty)          (* Tuple[t1, .., tn]; [] is Tuple[()] *)
 | TUnion (ts: list ty)          (* Union[...] / Optional[...] as flattened by typing *)
-| TClass (c: string).           (* a dataclass of the class table *)
+| TClass (c: string)            (* a dataclass of the class table *)
+| TNamed (as_dict: bool) (names: list string) (ts: list ty) (ds: list (option js)).
+                                (* NamedTuple: field names, field types, rendered defaults (None = no default);
+                                   as_dict = namedtuple_as_dict / serialize="as_dict" in force *)
 
 (* one init-field of a dataclass: key used in "properties" (alias or name), type,
    "has neither default nor default_factory", rendered default (None = MISSING) *)
@@ -100,10 +103,27 @@ Definition union_sk (l: list js) : sk :=
   mk_sk None None None (Some l) None None None None None None None None None None None None.
 Definition ref_sk (r: string) : sk :=
   mk_sk None None None None (Some r) None None None None None None None None None None None.
+(* NamedTuple, list form: JSONArraySchema(prefixItems=items or None, maxItems=n or None, minItems=n or None) *)
+Definition ntuple_sk (prefix: list js) : sk :=
+  match prefix with
+  | [] => arr_sk None None
+  | _ => tuple_sk prefix
+  end.
+(* NamedTuple, dict form: JSONObjectSchema(properties=props or None, required=list(fields), additionalProperties=False) *)
+Definition ntobj_sk (props: list (string * js)) (req: list string) : sk :=
+  mk_sk None (Some "object") None None None None None
+        (match props with [] => None | _ => Some props end) (Some (JBool false)) None None None None None None
+        (Some req).
+
 Definition obj_sk (title: string) (props: list (string * js)) (req: list string) : sk :=
   mk_sk None (Some "object") (Some title) None None None None
         (match props with [] => None | _ => Some props end) (Some (JBool false)) None None None None None None
         (match req with [] => None | _ => Some req end).
+
+Fixpoint str_mem (s: string) (l: list string) : bool :=
+  match l with [] => false | x :: r => String.eqb x s || str_mem s r end.
+Fixpoint str_nodup (l: list string) : bool :=
+  match l with [] => true | x :: r => negb (str_mem x r) && str_nodup r end.
 
 Definition is_any (t: ty) : bool := match t with TAny => true | _ => false end.
 Definition or_none (t: ty) (s: sk) : option js := if is_any t then None else Some (render s).
@@ -115,16 +135,17 @@ Arguments SFuel {A}.
 Arguments SErr {A}.
 
 Section MapSt.
-  (* get_schema over the arguments of a tuple / union, threading the definitions *)
+  (* get_schema over the arguments of a tuple / union / the fields of a NamedTuple (with their
+     defaults), threading the definitions *)
   Context (rec: ty -> defs -> sres (sk * defs)).
-  Fixpoint map_st (l: list ty) (st: defs) : sres (list js * defs) :=
+  Fixpoint map_st (l: list ty) (ds: list (option js)) (st: defs) : sres (list js * defs) :=
     match l with
     | [] => SOk ([], st)
     | t1 :: r =>
         match rec t1 st with
         | SOk (s, st1) =>
-            match map_st r st1 with
-            | SOk (ss, st2) => SOk (render s :: ss, st2)
+            match map_st r (tl ds) st1 with
+            | SOk (ss, st2) => SOk (render (set_default s (hd None ds)) :: ss, st2)
             | SFuel => SFuel | SErr => SErr end
         | SFuel => SFuel | SErr => SErr end
     end.
@@ -176,17 +197,23 @@ Section Gen.
           | SOk (s, st1) => SOk (dict_sk (or_none a s), st1)
           | SFuel => SFuel | SErr => SErr end
       | TTuple ts => fun st =>
-          match map_st on_ty ts st with
+          match map_st on_ty ts [] st with
           | SOk (ss, st1) => SOk (tuple_sk ss, st1)
           | SFuel => SFuel | SErr => SErr end
       | TUnion ts => fun st =>
           match ts with
           | [] => SErr
           | _ =>
-          match map_st on_ty ts st with
+          match map_st on_ty ts [] st with
           | SOk (ss, st1) => SOk (union_sk ss, st1)
           | SFuel => SFuel | SErr => SErr end
           end
+      | TNamed asd names ts ds => fun st =>
+          if str_nodup names && Nat.eqb (List.length names) (List.length ts)
+          then match map_st on_ty ts ds st with
+               | SOk (ss, st1) => SOk (if asd then ntobj_sk (combine names ss) names else ntuple_sk ss, st1)
+               | SFuel => SFuel | SErr => SErr end
+          else SErr
       | TClass c => fun st =>
           match fuel with
           | O => SFuel
@@ -232,7 +259,7 @@ End Gen.
 Fixpoint classes_of (t: ty) : list string :=
   match t with
   | TList a | TSet a | TDict a => classes_of a
-  | TTuple ts | TUnion ts => (fix go (l: list ty) := match l with [] => [] | x :: r => (classes_of x ++ go r)%list end) ts
+  | TTuple ts | TUnion ts | TNamed _ _ ts _ => (fix go (l: list ty) := match l with [] => [] | x :: r => (classes_of x ++ go r)%list end) ts
   | TClass c => [c]
   | _ => []
   end.
@@ -243,6 +270,9 @@ Fixpoint ty_ok (t: ty) : bool :=
   | TList a | TSet a | TDict a => ty_ok a
   | TTuple ts => (fix go (l: list ty) := match l with [] => true | x :: r => ty_ok x && go r end) ts
   | TUnion ts => match ts with [] => false | _ => (fix go (l: list ty) := match l with [] => true | x :: r => ty_ok x && go r end) ts end
+  | TNamed _ names ts _ =>
+      str_nodup names && Nat.eqb (List.length names) (List.length ts)
+      && (fix go (l: list ty) := match l with [] => true | x :: r => ty_ok x && go r end) ts
   | _ => true
   end.
 
@@ -285,10 +315,6 @@ Definition is_type_name (s: string) : bool :=
   String.eqb s "null" || String.eqb s "boolean" || String.eqb s "object" || String.eqb s "array"
   || String.eqb s "number" || String.eqb s "string" || String.eqb s "integer".
 
-Fixpoint str_mem (s: string) (l: list string) : bool :=
-  match l with [] => false | x :: r => String.eqb x s || str_mem s r end.
-Fixpoint str_nodup (l: list string) : bool :=
-  match l with [] => true | x :: r => negb (str_mem x r) && str_nodup r end.
 
 Fixpoint all_strs (l: list js) : option (list string) :=
   match l with
